@@ -13,7 +13,9 @@
 // (keys of other SSH CAs) and a non-federated old host key (a former key of this CA).
 // Provisioners on each: jwk (fixture default), x5c, oidc (loopback discovery; admin = adminEmail),
 // neb (Nebula: tokens signed with the key of a host certificate of a local Nebula CA),
-// k8sSA-default (Kubernetes service-account tokens signed with a local key).
+// k8sSA-default (Kubernetes service-account tokens signed with a local key),
+// awsdcs / aws (AWS instance identity, built from their admin-database form by
+// authority.ProvisionerToCertificates: disableCustomSANs true / false).
 package main
 
 import (
@@ -25,6 +27,9 @@ import (
 	"crypto/elliptic"
 	"crypto/rand"
 	"crypto/rsa"
+	"crypto/sha256"
+	"bytes"
+	"math/big"
 	"crypto/x509"
 	"crypto/x509/pkix"
 	"encoding/base64"
@@ -44,12 +49,14 @@ import (
 	"time"
 
 	nebula "github.com/slackhq/nebula/cert"
+	"github.com/smallstep/linkedca"
 	"go.step.sm/crypto/jose"
 	"go.step.sm/crypto/minica"
 	"go.step.sm/crypto/randutil"
 	"go.step.sm/crypto/sshutil"
 	"golang.org/x/crypto/ssh"
 
+	"github.com/smallstep/certificates/api"
 	"github.com/smallstep/certificates/authority"
 	"github.com/smallstep/certificates/authority/config"
 	"github.com/smallstep/certificates/authority/provisioner"
@@ -91,6 +98,7 @@ type Case struct {
 	SubSer  bool // sub = certificate serial
 	Revoked bool
 	DisRen  bool // use the provisioner with disableRenewal
+	RevAPI  bool // revoke through the real POST /ssh/revoke handler (SSHPOP token) before the renew / rekey
 	Perms   string // both | crit | ext | none | empty   permissions of the presented certificate
 }
 
@@ -154,6 +162,34 @@ type env struct {
 	serial   uint64
 	nebHosts []nebHost
 	k8sKey   *ecdsa.PrivateKey
+	awsKey   *rsa.PrivateKey // signs the instance identity documents; its certificate is the provisioners' IIDRoots
+	awsRoots string          // file with that certificate
+	awsSeq   int
+}
+
+// awsProv builds an AWS provisioner the way the authority does for one stored in the admin database:
+// from its linkedca form through authority.ProvisionerToCertificates; IIDRoots (a local file, not part of
+// the linkedca form) and the SSH claim are then set on the result.
+func (e *env) awsProv(name string, disableCustomSANs, disableTOFU bool) provisioner.Interface {
+	p, err := authority.ProvisionerToCertificates(&linkedca.Provisioner{
+		Type: linkedca.Provisioner_AWS, Name: name,
+		Details: &linkedca.ProvisionerDetails{Data: &linkedca.ProvisionerDetails_AWS{AWS: &linkedca.AWSProvisioner{
+			Accounts: []string{"123456789012"}, DisableCustomSans: disableCustomSANs, DisableTrustOnFirstUse: disableTOFU}}},
+	})
+	if err != nil {
+		panic(err)
+	}
+	a := p.(*provisioner.AWS)
+	tr := true
+	a.IIDRoots = e.awsRoots
+	a.Claims = &provisioner.Claims{EnableSSHCA: &tr}
+	return a
+}
+
+const awsIP, awsRegion = "10.0.0.5", "us-east-1"
+
+func awsPrincipals() []string {
+	return []string{awsIP, "ip-" + strings.ReplaceAll(awsIP, ".", "-") + "." + awsRegion + ".compute.internal"}
 }
 
 type nebHost struct {
@@ -230,6 +266,14 @@ func newEnv() (*env, error) {
 	tr := true
 	pemNeb, hosts := newNebula()
 	e.nebHosts = hosts
+	e.awsKey = must(rsa.GenerateKey(rand.Reader, 2048))
+	awsTpl := &x509.Certificate{SerialNumber: big.NewInt(1), Subject: pkix.Name{CommonName: "verif aws iid"},
+		NotBefore: time.Now().Add(-time.Hour), NotAfter: time.Now().Add(240 * time.Hour)}
+	awsDER := must(x509.CreateCertificate(rand.Reader, awsTpl, awsTpl, &e.awsKey.PublicKey, e.awsKey))
+	awsFile := must(os.CreateTemp("", "verif-c14-aws-*.pem"))
+	awsFile.Write(pem.EncodeToMemory(&pem.Block{Type: "CERTIFICATE", Bytes: awsDER}))
+	awsFile.Close()
+	e.awsRoots = awsFile.Name()
 	e.k8sKey = must(ecdsa.GenerateKey(elliptic.P256(), rand.Reader))
 	k8sPub := pem.EncodeToMemory(&pem.Block{Type: "PUBLIC KEY", Bytes: must(x509.MarshalPKIXPublicKey(e.k8sKey.Public()))})
 	mkProvs := func(name string, pop bool) provisioner.List {
@@ -242,6 +286,8 @@ func newEnv() (*env, error) {
 			o,
 			&provisioner.Nebula{Type: "Nebula", Name: "neb", Roots: pemNeb, Claims: &provisioner.Claims{EnableSSHCA: &tr}},
 			&provisioner.K8sSA{Type: "K8sSA", Name: provisioner.K8sSAName, PubKeys: k8sPub, Claims: &provisioner.Claims{EnableSSHCA: &tr}},
+			e.awsProv("awsdcs", true, false),
+			e.awsProv("aws", false, true),
 		}
 		if pop {
 			l = append(l,
@@ -302,6 +348,7 @@ func newEnv() (*env, error) {
 }
 
 func (e *env) close() {
+	os.Remove(e.awsRoots)
 	for _, ca := range e.cas {
 		ca.Close()
 	}
@@ -406,6 +453,7 @@ func (e *env) runSign(k *Case) (line, impl string, ok bool) {
 	var tok string
 	var err error
 	mprov, oem, ousr := k.Prov, "x", "-"
+	subLine := k.Sub // the token's subject as the model sees it
 	nbn, nbi, tpip := "x", "-", "-"
 	switch k.Prov {
 	case "nebula":
@@ -432,6 +480,21 @@ func (e *env) runSign(k *Case) (line, impl string, ok bool) {
 		claims["iss"], claims["aud"] = "x5c", fixture.Audience("/1.0/ssh/sign")+"#x5c/x5c"
 		chain := []string{base64.StdEncoding.EncodeToString(e.x5cLeaf.Raw), base64.StdEncoding.EncodeToString(e.x5cRoot.Intermediate.Raw)}
 		tok, err = signJWT(e.x5cKey, "ES256", map[string]any{"x5c": chain}, claims)
+	case "aws", "awsdcs":
+		// an EC2 instance identity token: HS256 under the signature of the identity document it carries
+		delete(claims, "step")
+		e.awsSeq++
+		inst := fmt.Sprintf("i-%08d", e.awsSeq)
+		doc := must(json.Marshal(map[string]any{"accountId": "123456789012", "instanceId": inst, "privateIp": awsIP, "region": awsRegion,
+			"pendingTime": now.Add(-10 * time.Minute).UTC().Format(time.RFC3339), "imageId": "ami-1", "instanceType": "t2.micro", "version": "2017-09-30"}))
+		h := sha256.Sum256(doc)
+		sig := must(rsa.SignPKCS1v15(rand.Reader, e.awsKey, crypto.SHA256, h[:]))
+		claims["iss"], claims["sub"], claims["sans"] = "ec2.amazonaws.com", inst, []string{}
+		claims["aud"] = fixture.Audience("/1.0/sign") + "#aws/" + k.Prov
+		claims["amazon"] = map[string]any{"document": doc, "signature": sig}
+		tok, err = signJWT(sig, "HS256", nil, claims)
+		oem, ousr = c.X(inst), xlist(awsPrincipals())
+		subLine = inst
 	case "k8ssa":
 		delete(claims, "step")
 		claims["iss"] = "kubernetes/serviceaccount"
@@ -463,11 +526,11 @@ func (e *env) runSign(k *Case) (line, impl string, ok bool) {
 	pub, keyClass := e.pubKey(k.Key)
 	cau, cah := caBits(k.CA)
 	tva, tvb := k.TVA, k.TVB
-	if k.NoSSH || k.Prov == "oidc" || k.Prov == "k8ssa" {
+	if k.NoSSH || k.Prov == "oidc" || k.Prov == "k8ssa" || k.Prov == "aws" || k.Prov == "awsdcs" {
 		tva, tvb = 0, 0
 	}
 	line = fmt.Sprintf("op=sign prov=%s cau=%s cah=%s dbe=%s epc=1 sub=%s ssh=%s tct=%s tkid=%s tpr=%s oem=%s ousr=%s nbn=%s nbi=%s tpip=%s tva=%s tvb=%s rva=%s rvb=%s rct=%s rkid=%s rpr=%s au=%s scfg=%s key=%s case=x%s",
-		mprov, cau, cah, c.B(ca.DB != nil), c.X(k.Sub), c.B(!k.NoSSH && k.Prov != "oidc" && k.Prov != "k8ssa"), c.X(k.Tok.CertType), c.X(k.Tok.KeyID), xlist(k.Tok.Principals),
+		mprov, cau, cah, c.B(ca.DB != nil), c.X(subLine), c.B(!k.NoSSH && k.Prov != "oidc" && k.Prov != "k8ssa" && k.Prov != "aws" && k.Prov != "awsdcs"), c.X(k.Tok.CertType), c.X(k.Tok.KeyID), xlist(k.Tok.Principals),
 		oem, ousr, nbn, nbi, tpip, valField(tva), valField(tvb), valField(k.RVA), valField(k.RVB), c.X(k.Req.CertType), c.X(k.Req.KeyID), xlist(k.Req.Principals), c.B(k.AddUser), c.B(k.CA != "nosshcfg"), keyClass,
 		hex.EncodeToString(must(json.Marshal(k))))
 	impl = func() (out string) {
@@ -640,6 +703,31 @@ func (e *env) runPop(k *Case) (line, impl string, ok bool) {
 	if err != nil {
 		return "", "", false
 	}
+	revoked := k.Revoked
+	if k.RevAPI {
+		// POST /1.0/ssh/revoke as a client does it: SSHPOP token (sub = serial) for the presented
+		// certificate, handled by the real api.SSHRevoke; a 200 means the certificate is revoked
+		if ca.DB == nil {
+			return "", "", false
+		}
+		rclaims := map[string]any{"iss": prov, "aud": fixture.Audience("/1.0/ssh/revoke") + "#sshpop/" + prov, "sub": strconv.FormatUint(old.Serial, 10),
+			"iat": now.Unix(), "nbf": now.Add(-time.Second).Unix(), "exp": now.Add(5 * time.Minute).Unix(), "jti": must(randutil.Hex(16))}
+		rtok, err := signJWT(subjKey, "ES256", map[string]any{"sshpop": base64.StdEncoding.EncodeToString(old.Marshal())}, rclaims)
+		if err != nil {
+			return "", "", false
+		}
+		body := must(json.Marshal(map[string]any{"serial": strconv.FormatUint(old.Serial, 10), "ott": rtok, "passive": true, "reasonCode": 1, "reason": "verif"}))
+		req := httptest.NewRequest("POST", "/1.0/ssh/revoke", bytes.NewReader(body))
+		req = req.WithContext(authority.NewContext(req.Context(), ca.Auth))
+		rec := httptest.NewRecorder()
+		func() {
+			defer func() { recover() }()
+			api.SSHRevoke(rec, req)
+		}()
+		if rec.Code == 200 {
+			revoked = true
+		}
+	}
 	if k.Revoked {
 		if ca.DB == nil {
 			return "", "", false
@@ -666,7 +754,7 @@ func (e *env) runPop(k *Case) (line, impl string, ok bool) {
 	line = fmt.Sprintf("op=%s cau=%s cah=%s dbe=%s epc=1 dren=%s aexp=0 ct=%d kid=%s pr=%s pco=%s pex=%s su=%s sh=%s ny=%s ex=%s hv=%s tsig=%s tcl=%s taud=%s tsub=%s tser=%s rev=%s key=%s case=x%s",
 		k.Op, cau, cah, c.B(ca.DB != nil), c.B(k.DisRen), ct, c.X(k.Cert.KeyID), xlist(k.Cert.Principals), kvList(old.CriticalOptions), kvList(old.Extensions), c.B(su), c.B(sh),
 		c.B(k.Window == "future"), c.B(k.Window == "expired"), c.B(va != 0 && vb != 0),
-		c.B(k.TokKey != "other"), c.B(k.Iss != "wrong"), c.B(k.Aud != "wrong"), c.B(!k.NoSub), c.B(k.SubSer && !k.NoSub), c.B(k.Revoked), keyClass,
+		c.B(k.TokKey != "other"), c.B(k.Iss != "wrong"), c.B(k.Aud != "wrong"), c.B(!k.NoSub), c.B(k.SubSer && !k.NoSub), c.B(revoked), keyClass,
 		hex.EncodeToString(must(json.Marshal(k))))
 	impl = func() (out string) {
 		defer func() {
